@@ -221,3 +221,13 @@ def lemma(I):
             Sym(z3.And(z3.Implies(init, inv(nxt, snap, hi)),
                        z3.Implies(z3.And(inv(nxt, snap, hi), step), inv(n2, s2, h2)),
                        z3.Implies(inv(nxt, snap, hi), z3.And(no_gap, fresh_for_never_replayed)))))
+
+
+# ------------------------------------------------------------------------------------------------ the engine side of a checkpoint
+# The bundler contracts above speak of reset_checkpoint_state / rewind; that a 'checkpoint' message (and every implicit checkpoint)
+# really reaches every open run's reset_checkpoint_state - from any state of the engine's message cache, an empty one included - is
+# the handler contract proved under C04, re-used here: without it the snapshot used by a later rewind is stale and seq_nums repeat.
+from . import C04 as _c04   # noqa: E402
+
+for _h in ("_checkpoint", "_stage", "_close_run"):
+    task(f"engine.handler{_h}", PROP, functions=[f"{_c04.RE}.{_h}", f"{_c04.RE}._reset_checkpoint_state_meth"])(_c04.HANDLER_TASKS[_h])
